@@ -1,7 +1,7 @@
 (* PV.C17.Examples — non-vacuity: concrete NON-TRIVIAL instances of every hypothesis / guard of the
    theorems in Properties.v. *)
 From Coq Require Import List Bool PArith Arith.
-From PV Require Import Base.PyData C17.Model C17.Check C17.ProofsBuilder C17.ProofsOptimize C17.Refuted.
+From PV Require Import Base.PyData C17.Model C17.Check C17.ProofsBuilder C17.ProofsOptimize C17.ProofsOptimizeAll C17.Refuted.
 Import ListNotations.
 Local Open Scope nat_scope.
 
@@ -166,4 +166,18 @@ Example call_workflow_example :
   map tinputs (nodes (call_prepare e_wf e_ctx 100)) =
     [tinputs e_a; tinputs e_b; e_ctx :: tinputs e_c; tinputs e_d] /\
   dask_get fam_apply (the_dict (call_prepare e_wf e_ctx 100) r_ids) results = execute fam_apply e_wf e_ctx 100 r_ids.
+Proof. crunch. Qed.
+
+(* optimize_preserves: all hypotheses hold on a chain with an object (scattered) and a number as static input *)
+Definition oc_a : task := mkTask 11 11 1 [SAtom 2001; SAtom 1001; SList [SAtom 2002]] false.
+Definition oc_dict : dsk := the_dict (workflow_of (add_task (add_task (add_task g_empty oc_a []) x2 [oc_a]) x3 [x2])) r_ids.
+Example optimize_preserves_example :
+  nodupp (dkeys oc_dict) = true /\ length (dask_sched oc_dict) = length oc_dict /\ dsk_no_fut oc_dict = true /\
+  inline_only [FInline 21; FInline 22] = true /\ avoids results [FInline 21; FInline 22] = true /\
+  snd (fuse_steps oc_dict [FInline 21; FInline 22]) = true /\
+  fst (fuse_steps (scatter_dsk oc_dict) [FInline 21; FInline 22]) =
+    [(results, STuple [SFun 1; STuple [SFun 1; STuple [SFun 1; SFut (SAtom 2001); SAtom 1001; SList [SFut (SAtom 2002)]]]])] /\
+  dask_get_dist fam_apply (fst (fuse_steps (scatter_dsk oc_dict) [FInline 21; FInline 22])) results
+    = dask_get fam_apply oc_dict results /\
+  dsk_atomic (scatter_dsk oc_dict) = true.
 Proof. crunch. Qed.
